@@ -139,3 +139,15 @@ def merge(results):
 
 def log(*a):
     print(*a, file=sys.stderr, flush=True)
+
+
+def exc_site(e):
+    """'<ExcType>@<repo file>:<function>' of the innermost repository frame of an exception (mechanism key)."""
+    import traceback
+    site = "?"
+    for fr in traceback.extract_tb(e.__traceback__):
+        fn = fr.filename
+        if fn.startswith(REPO.rstrip("/") + "/") or "/vt_mut_" in fn:
+            rel = fn.split("/vt_mut_")[-1].split("/", 1)[-1] if "/vt_mut_" in fn else fn[len(REPO.rstrip("/")) + 1:]
+            site = f"{rel}:{fr.name}"
+    return f"{type(e).__name__}@{site}"
